@@ -421,6 +421,25 @@ def r4(ctx):
     ctx.floor("C06.R4", 23)
 
 
+def share_failing_body(ctx, rule, floor=2):
+    """imports the `transaction-body-fails` rows of R4 under another property's rule id: a failing operation (a request for an
+    unknown document, a refused import) neither rolls back nor drops the shared write transaction - what earlier requests were
+    acknowledged for is still there"""
+    sub = type(ctx)(ctx.prop, ctx.tier, ctx.facts, ctx.cfg)
+    r4(sub)
+    for o in sub.obligations:
+        if "transaction-body-fails" not in o["key"]:
+            continue
+        o = dict(o)
+        o["key"] = o["key"].replace("C06.R4", rule)
+        o["rule"] = rule
+        ctx.obligations.append(o)
+        if o["status"] != "holds":
+            ctx.violations.append(o)
+    ctx.analysed_bodies |= sub.analysed_bodies
+    ctx.floor(rule, floor)
+
+
 def run(ctx):
     ctx.run_rule("C06.R4", r4)
     ctx.run_rule("C06.R1", r1)
